@@ -62,6 +62,10 @@ def r_id(e, R):
     ok = norm(key) == norm(puts[0][1].args[0])
     R.check(ok, "R-ID", "submit: the pending key and the queued work id are the same term", sub.short,
             f"{norm(ins[0][1])} / {norm(puts[0][1])}", "the id stored in the pending table is not the id queued for dispatch", e.loc(sub, key))
+    # publication order: the manager looks the item up as soon as it dequeues the id
+    R.check(g.dominates(ins[0][0], puts[0][0]), "R-ID", "submit: the work item is in the pending table before its id is queued", sub.short,
+            "pending[id] = w before work_ids.put(id)", "the id is queued before the item is registered: the manager can dequeue it first and "
+            "fail on the lookup (KeyError kills the manager thread)", e.loc(sub, puts[0][1]))
     cattr = key.attr if isinstance(key, ast.Attribute) else None
     if cattr is None:
         R.fail("R-ID", sub.short, norm(key), "work ids are not taken from an executor counter", e.loc(sub, key))
